@@ -28,6 +28,9 @@ CHECKS = {
  "C36": ("model_checking", "explicit-state exploration of all bounded insert/remove/rebuild/clear histories on the real BloomFilter and HashIndex vs a multiset model", "51 filter parameterisations (incl. degenerate 0/1/63/65 bits, 0/100 hashes) x all insert/clear sequences to depth 5/7 over 6 keys; 3 key-column specs x all histories to depth 4/6 over 14 operations; lookups compared with a multiset model after every step.", "harness structural tuple equality (bitwise floats) is the key-equality oracle", "2/C36", "E2"),
  "C24": ("model_checking", "explicit-state exploration of all bounded index histories on the real HnswIndex vs a brute-force reference, with the level generator's entropy owned by the harness (default + one deviation)", "All histories to depth 3/4 over insert/update/delete/rebuild/batch x 4 metrics; after each: 5 queries x k x ef; every result list checked against the brute-force reference (live ids, order, exact metric values, true k nearest when live <= ef). Each history is run with the benign level seed and with every single deviation (graph build r gives point j an upper layer).", "getrandom shim pins hnsw_rs's level seed; the level model is validated against hnsw_rs on every run; dot-product exact values on unit-norm inputs only", "2/C24", "E2"),
  "C25": ("model_checking", "explicit-state exploration of bounded index histories incl. save/load at every position vs a reference map", "C24's alphabet plus HnswIndex::save/load and IndexManager::save_indexes/load_indexes; after each history the live id set with latest vectors (observed by exhaustive search), len-tombstones, metric/config and dimension must equal the reference.", "same entropy ownership as C24", "2/C25", "E2"),
+ "C09": ("model_checking", "exhaustive enumeration of a rule-text grammar x five submission paths (direct engine reference, inline, session, persistent, after restart) through the real Handler", "Every rule of the term grammar (all 1-3 leaf arithmetic trees in all parenthesisations, float/int/string/bool/vector constants in every position, function calls, aggregates, negation, comparisons) is evaluated five ways on the same facts; typed answers (value and kind) must agree and acceptance must be uniform.", "the direct IQLEngine evaluation of the parsed text is the reference for what the rule denotes", "2/C09", "E2"),
+ "C34": ("model_checking", "exhaustive enumeration of rule sets x persistent/session splits x registration orders through the real Handler vs own SCC computation", "All closed rule sets of <=3 clauses over 2 (quick) / 3 (thorough) predicates with signed literals, every split between persistent and session rules, both registration orders, then a query on every head: negative cycles must be rejected at registration or query time, everything else accepted and answered.", "own Tarjan SCC / stratification in harness/src/r1.rs", "2/C34", "E2"),
+ "C35": ("model_checking", "exhaustive enumeration of tiny relations x sort annotations x limit/offset through the real Handler vs brute-force permutation oracle", "All pairs/triples (thorough: quadruples) of a 10-value mixed-kind key pool as sort column(s), every annotation set, every limit/offset <= rows+1: the rows must be the requested slice of some inversion-free ordering; 97 relations of 24 rows with NaNs at every subset of 5 positions for the never-fails clause.", "harness partial order: numeric kinds by value, NaN and cross-kind unordered", "2/C35", "E2"),
 }
 NA_DEFAULT = "check not built yet in this round (work in progress; DESIGN.md section 6 build order)"
 
@@ -52,7 +55,7 @@ m = {
  "engines": [
    {"name": "E1", "path": "harness/src/e1.rs", "serves_properties": ["C01","C02","C03","C04","C06","C07","C08"], "kind_free_text": E1},
    {"name": "E5", "path": "harness/src/e5.rs", "serves_properties": ["C26","C28","C31"], "kind_free_text": "E5 FIN: nested loops over complete finite domains"},
-   {"name": "E2", "path": "harness/src/e2_store.rs, harness/src/e2_handler.rs, harness/src/e2_index.rs, harness/src/e2_hnsw.rs", "serves_properties": [k for k,v in CHECKS.items() if v[5]=="E2"], "kind_free_text": "E2 HIST: explicit-state exploration of all operation sequences up to a depth bound over a small alphabet, every sequence executed on real StorageEngine / Handler objects and compared with a reference model after every step"},
+   {"name": "E2", "path": "harness/src/e2_store.rs, harness/src/e2_handler.rs, harness/src/e2_index.rs, harness/src/e2_hnsw.rs, harness/src/e2_rules.rs, harness/src/e2_c35.rs", "serves_properties": [k for k,v in CHECKS.items() if v[5]=="E2"], "kind_free_text": "E2 HIST: explicit-state exploration of all operation sequences up to a depth bound over a small alphabet, every sequence executed on real StorageEngine / Handler objects and compared with a reference model after every step"},
  ],
  "checks": [],
  "not_applicable": [],
